@@ -150,6 +150,21 @@ def monitor(pid, year, base, assign, r, asked):
     elif pid == 'C13':
         add(monitors.c13(r, {}))
         add(monitors.stored_equals_supplied(r))
+        if r.exc is None:
+            # inputs never read are not required: drop them from the file, nothing may change; and the run on the
+            # written-back inputs asks nothing
+            read = set(name for a in r.log for kind, name, st, val in a.reads if kind == 'i' and st == 'ok')
+            asked2 = []
+
+            def ans(missing, needed_by):
+                asked2.append(missing.name())
+                return None
+            r2 = world.run_solve(fl, base.requested, {k: v for k, v in r.final_inputs.items() if k in read}, answer=ans)
+            cnt['solves'] += 1
+            if r2.canon() != r.canon():
+                viols.append(('unread-input-required', f'dropping the {len(r.final_inputs) - len(read)} never-read inputs changes the outcome: {_diff(r, r2)}', None))
+            if asked2 and r.verdict:
+                viols.append(('second-run-asks', f'a run on the inputs that were read asks for {asked2[:4]}', None))
     elif pid == 'C02':
         from hv import c02oracle
         errs, st = c02oracle.check_solution(year, r.solution, inputs=r.final_inputs,
